@@ -718,6 +718,29 @@ def corpus() -> List[dict]:
             {"kind": "create_order", "arg": _req(type="limit", op="buy", amount=1, limit=1)},
             {"kind": "bar", "arg": dict(p=1, t=3, o=1, h=1, l=1, c=1, v=vol)},
             {"kind": "bar", "arg": dict(p=1, t=4, o=1, h=1, l=1, c=1, v=1000)}]})
+    # fees at very fine quote precisions (20 and 24 decimals): rounded up to THAT precision, over one and several fills
+    for lift_q, vol in ((18, 1000), (22, 1000), (22, 6)):
+        cfg = base_cfg(scale={"BTC": 1, "USD": 100}, init={"BTC": 50, "USD": 2000}, feeMode="pct", feeN=125, feeD=100000,
+                       liqMode="share", vlN=1, vlD=2, vs=1)
+        out.append({"cfg": cfg, "lift": {"BTC": lift_q - 2, "USD": lift_q}, "steps": [
+            {"kind": "bar", "arg": dict(p=1, t=1, o=103, h=103, l=103, c=103, v=1000)},
+            {"kind": "create_order", "arg": _req(type="limit", op="buy", amount=7, limit=103)},
+            {"kind": "create_order", "arg": _req(type="market", op="sell", amount=3)},
+            {"kind": "bar", "arg": dict(p=1, t=2, o=103, h=103, l=103, c=103, v=vol)},
+            {"kind": "bar", "arg": dict(p=1, t=3, o=103, h=103, l=103, c=103, v=vol)},
+            {"kind": "bar", "arg": dict(p=1, t=4, o=103, h=103, l=103, c=103, v=1000)}]})
+    # an account without equity that owes a symbol with a margin requirement (tightened after the loan was granted) cannot
+    # borrow anything more, not even a symbol that needs no margin itself
+    cfg = base_cfg(init={"BTC": 0, "USD": 0}, lendMode="margin", reqD=4,
+                   cond={"BTC": margin_cond("BTC", 0, 1, 1, 0, 0), "USD": margin_cond("USD", 0, 1, 1, 0, 0)},
+                   condAlt={"BTC": margin_cond("BTC", 0, 1, 1, 0, 0), "USD": margin_cond("USD", 0, 1, 1, 0, 4)})
+    out.append({"cfg": cfg, "steps": [
+        {"kind": "bar", "arg": dict(p=1, t=1, o=10, h=10, l=10, c=10, v=1000)},
+        {"kind": "create_loan", "arg": {"sym": "USD", "amount": 100}},
+        {"kind": "set_cond", "arg": {"sym": "USD", "which": "alt"}},
+        {"kind": "create_loan", "arg": {"sym": "BTC", "amount": 5}},
+        {"kind": "create_order", "arg": _req(type="market", op="sell", amount=3, ab=True)},
+        {"kind": "bar", "arg": dict(p=1, t=2, o=10, h=10, l=10, c=10, v=1000)}]})
     # KF-1 (known finding, C04): a fill whose quote amount rounds to zero is ignored -- kept so that every run reports it
     cfg = base_cfg(scale={"BTC": 100, "USD": 100}, init={"BTC": 0, "USD": 1000})
     out.append({"cfg": cfg, "steps": [
